@@ -697,7 +697,23 @@ def _binner(prog: Program, run: Run) -> None:
     else:
         run.violation(R, C, "sid", f"expected exactly one path of an iteration that returns a "
                       f"SID, found {len(sid)}", f.loc)
-    if any("CodedConstParameter" in conj_test(c) for c, _e in none_paths):
+    # `break` out of the loop when all that follows the loop is `return None` is the same exit
+    after_none = False
+    blk = f.node.body
+    if lp in blk:
+        rest = blk[blk.index(lp) + 1:]
+        after_none = not rest or (len(rest) == 1 and isinstance(rest[0], ast.Return) and (
+            rest[0].value is None or (isinstance(rest[0].value, ast.Constant) and
+                                      rest[0].value.value is None)))
+    break_none = False
+    if after_none and not lp.orelse:
+        bcfg = CFG(f.node)
+        for b_ in ast.walk(lp):
+            if isinstance(b_, ast.Break):
+                cs = bcfg.branch_conditions(bcfg.node_of(b_))
+                if any("CodedConstParameter" in ast.unparse(t) for t, _p in cs):
+                    break_none = True
+    if break_none or any("CodedConstParameter" in conj_test(c) for c, _e in none_paths):
         run.ok(R, C, "a non-constant leading parameter means: no SID", f.loc)
     else:
         run.violation(R, C, "non-constant-skipped", "a parameter that is not a CODED-CONST does "
